@@ -33,6 +33,8 @@ INTERPOLATION_KEYS = (
     PT.H_NET_HP_PRO.value,
     PT.H_HOT_UT.value,
     PT.H_COLD_UT.value,
+    PT.H_NET_HOT_UT.value,
+    PT.H_NET_COLD_UT.value,
     PT.H_HOT_BAL.value,
     PT.H_COLD_BAL.value,
     PT.H_HOT_HP.value,
